@@ -100,7 +100,37 @@ def probe(o):
     return None
 
 
+def kani_bounded_input(o):
+    """a failed bounded Kani harness: re-run it with concrete playback and, where a replay entry exists for its
+    family, execute the concrete input against the real crates."""
+    h = o.get("kani") or {}
+    fams = kani.families()
+    F = fams.get(h.get("family"))
+    if not F:
+        return None
+    r = kani.run_harness(F["crate"], h["harness"], F.get("flags", []), F.get("timeout", 900), playback=True)
+    vals = playback_bytes(r["out"])
+    res = {"input": None, "reproduced": False, "kani_harness": h["harness"], "kani_cmd": r["cmd"],
+           "kani_playback_values": vals, "kani_failed_checks": kani.parse(r["out"]).get("failed_descriptions")}
+    if vals is None:
+        return res
+    m = re.match(r"hid_send_len_(\d+)$", h["harness"])
+    if m:
+        n = int(m.group(1))
+        flat = [v[0] for v in vals[:n]]
+        chv = vals[n] if len(vals) > n else [0, 0, 0, 0]
+        ch = int.from_bytes(bytes(chv[:4]), "little")   # kani::any::<u32>() bytes are native-endian (x86: little)
+        arg = "%08x:10:%s" % (ch, "".join("%02x" % b for b in flat))
+        rep = run_replay("hid-roundtrip", arg)
+        res.update({"entry": "hid-roundtrip", "replay_result": rep})
+        if rep.get("violates"):
+            res.update({"input": arg, "reproduced": True})
+    return res
+
+
 def find_input(pid, o):
+    if o.get("kani") and o["id"].startswith("kani-bounded::"):
+        return kani_bounded_input(o)
     fam = None
     for rx, f in PAIRS:
         if rx.search(o["id"]):
